@@ -24,7 +24,6 @@ import collections
 import contextlib
 import hashlib
 import io
-import itertools
 import os
 import pickle
 import shutil
@@ -230,7 +229,7 @@ def state_of(v, n=None):
     if t is list or t is tuple:
         return ("L", t.__name__, tuple([state_of(x) for x in v]))
     if t is set or t is frozenset:
-        return ("S", t.__name__, tuple(sorted((type(x).__name__, repr(x)) for x in v)))
+        return ("S", t.__name__, tuple(sorted((state_of(x) for x in v), key=repr)))
     if isinstance(v, type):
         return ("T", v.__name__, tuple(getattr(v, "_fields", ())))
     if hasattr(v, "__dict__"):
@@ -404,10 +403,6 @@ def canon(bd):
 
 # -- the oracle: reload + lockstep continuation in one state -----------------------------------
 
-_ATTR_NAMES = ("insert_idx", "current_len", "mask_", "episode_timesteps", "environment_terminates", "priority.priority",
-               "priority.max_priority", "priority.sampled_indices", "selected_task", "active_buffers", "sampled_task_idx")
-
-
 def classify(buf, cfg, g):
     """Which parts of the state are non-default (vacuity guard + RULE's non-triviality)."""
     tags = set()
@@ -533,13 +528,13 @@ def _continue(S, R, blob, g, depth, cfg, col, ops, H, path, E, fresh_bytes):
         rb_ = run_op(R1, op, g, cfg)
         col.tick(2)
         col.outcome("continuation_steps")
-        if ra[0] == "raised":
-            col.outcome("continuation_steps_where_both_raise_the_same_exception")
-        elif ra[0] == "batch":
-            col.outcome("continuation_steps_comparing_a_sampled_batch")
         if ra != rb_:
             col.violation(SIG.format(E, K_CRES), dict(history=H, continuation=path + [list(op)], original=_short(ra), reloaded=_short(rb_)))
             continue
+        if ra[0] == "raised":
+            col.outcome("continuation_steps_where_both_raise_the_same_exception")
+        elif ra[0] == "batch":
+            col.outcome("continuation_steps_comparing_equal_sampled_batches")
         sa = state_of(S1)
         if sa != state_of(R1):
             paths, d = diff_leaves(S1, R1)
